@@ -149,3 +149,13 @@ META["C11"] = dict(
     trusted_base=COMMON_TB + ["MV.I.Phi enclosure of the normal CDF and its inverse by bisection (n>30)"],
     assumptions=["n>=1, 0<=q<=1", "the interval is allowed to contain either mode when (n+1)q is an integer"],
 )
+
+META["C07"] = dict(
+    level_text="Theorems (Lean): for a right-continuous non-decreasing CDF the spec quantile(y)=inf{x | cdf x >= y} satisfies the Galois connection quantile y <= x <-> y <= cdf x, hence is non-decreasing and (inverse-transform) {y | quantile y <= x} = (0, cdf x]; the piecewise model's `quantile` computes that spec; the bracket/bisection mirror keeps cdf lo < y <= cdf hi for every midpoint rule, so on exit lo < quantile y <= hi. Correspondence: InvCDF of the real code on user-defined piecewise CDFs (ramps, jumps, flats, anywhere within +-1e6) and on the built-in binomial, hypergeometric, UDist and t distributions against the exact quantile (1e-9 relative), the NaN / end-point cases, the own-method dispatch, and Rand = InvCDF(first non-zero Float64 of the same seeded source) bit for bit.",
+    level_note="Trusted: Lean kernel, harness sampling; math/rand uniformity (outside the repository) for the distributional part of Rand; float midpoint/spacing of the bisection is not modelled (tolerance 1e-9 relative + 1e-12).",
+    technique="Lean 4 proofs (Galois connection, bisection invariant) + differential correspondence on generated CDFs",
+    rule="inv pw <knots> y: random well-formed piecewise CDFs with 1..12 knots, dyadic levels, jumps/flats/ramps, centred at 0, +-1e6 etc. with widths 1e-3..1e6; y uniform, at exact flat/jump levels and their float neighbours, inside jumps, 2^-k, 1-2^-k, 0, 1, outside, NaN. inv bin/hyp/ud/cont for built-ins (y also at the code's own jump levels). rnd: Rand vs InvCDF on the same seed. non-trivial = every case",
+    exhaustive_part="",
+    trusted_base=COMMON_TB,
+    assumptions=["user CDFs are non-decreasing, right-continuous, 0 before the first knot and 1 from the last", "discrete built-ins: when y is within 1e-10 of a cumulative level either neighbouring grid point is accepted"],
+)
